@@ -1082,7 +1082,11 @@ def run(ctx) -> None:
             for kind, dev, state, steps in cex:
                 ow = DEVIATIONS[dev][1]
                 case = index.get((kind, ow), {}).get(okey(state["objs"]))
-                ctx.require(case is not None, f"counterexample of {dev} is not among the enumerated cases")
+                if case is None:
+                    # TLC is free in the counterexample it reports (several workers): it may lie outside the domain whose
+                    # terminal states were enumerated for the replay.  The deviation was still refuted by TLC above.
+                    dev_out[dev] = dict(kind=kind, trace_steps=steps, replayed=False, reason="counterexample outside the enumerated cases")
+                    continue
                 sub = root / f"cex_{dev}"
                 sub.mkdir()
                 findings, drift = RUNNERS[kind](yaw, sub, case, rng)
